@@ -487,7 +487,7 @@ Proof.
 Qed.
 
 Lemma acked_counts_as_sent_G (s : vsock) : G s (acked_counts_as_sent s).
-Proof. unfold acked_counts_as_sent. destruct (seq_gt _ _); [g_same|apply G_refl]. Qed.
+Proof. unfold acked_counts_as_sent. destruct (seq_gt _ _ && seq_lt _ _); [g_same|apply G_refl]. Qed.
 
 (* the bookkeeping of process_all_incoming_messages after the receive loop *)
 Definition pa_tail (s1 : vsock) (res : on_ack_result * bool) : step unit :=
@@ -588,7 +588,7 @@ Proof.
       intro H; injection H as <-. exact F3. }
   destruct (0 <? ar_acked_segments r).
   - assert (Ha : keeps_in s1 (acked_counts_as_sent s2))
-      by (unfold acked_counts_as_sent; destruct (seq_gt _ _); exact F2).
+      by (unfold acked_counts_as_sent; destruct (seq_gt _ _ && seq_lt _ _); exact F2).
     revert Ha. generalize (acked_counts_as_sent s2). intros s2' Ha.
     destruct (truncate_front _ _) as [tx1 tr]. destruct tr; cbn [sbind]; [|discriminate].
     destruct (wake_writer tx1) as [tx2 w]. apply K. exact Ha.
@@ -1150,7 +1150,7 @@ Proof.
     apply K0; reflexivity. }
   destruct (0 <? ar_acked_segments r).
   - assert (Ha : v_out (acked_counts_as_sent s2) = v_out s1 /\ v_inbox (acked_counts_as_sent s2) = v_inbox s1)
-      by (unfold acked_counts_as_sent; destruct (seq_gt _ _); auto).
+      by (unfold acked_counts_as_sent; destruct (seq_gt _ _ && seq_lt _ _); auto).
     revert Ha. generalize (acked_counts_as_sent s2). intros s2' [Ha Ha']. cbv zeta.
     destruct (truncate_front _ _) as [tx1 tr]. destruct tr; cbn [sbind].
     + destruct (wake_writer tx1) as [tx2 w]. apply K; assumption.
@@ -1782,7 +1782,7 @@ Proof.
     rewrite (calc_pipe_len _ _ _ _ _ _ _ _ Ec). exact D. }
   destruct (Z.ltb_spec 0 (ar_acked_segments r)) as [Hpos|Hz].
   - assert (Hx : LB p (acked_counts_as_sent s2))
-      by (unfold acked_counts_as_sent; destruct (seq_gt _ _); exact F2).
+      by (unfold acked_counts_as_sent; destruct (seq_gt _ _ && seq_lt _ _); exact F2).
     revert Hx. generalize (acked_counts_as_sent s2). intros s2' (A & B & C & D).
     pose proof (seg_len_nonneg _ A) as Hn.
     unfold truncate_front. cbv zeta. rewrite Ha1.
